@@ -99,6 +99,20 @@ func (v *Verifier) callCommon(s *State, c *ssa.CallCommon, fv *Value, args []*Va
 					}
 				}
 			}
+			if fv != nil && strings.HasPrefix(fv.Orig, "field:") && fv.OrigObj != nil {
+				key := strings.TrimPrefix(fv.Orig, "field:") + "#callback"
+				if fc := v.contracts.get(key); fc != nil {
+					v.byContract[key] = true
+					if sig, ok := under(fv.T).(*types.Signature); ok {
+						k := strings.LastIndex(strings.TrimSuffix(key, "#callback"), ".")
+						recvT := v.lookupNamedType(key[:k])
+						if recvT != nil {
+							self := scalar(types.NewPointer(recvT), fv.OrigObj)
+							return v.applyFieldCallback(s, fc, sig, self, args, pos, resultType(c), key)
+						}
+					}
+				}
+			}
 			if cb := v.callbackContract(s, c, fv); cb != nil {
 				return v.applyCallback(s, cb, c, args, pos)
 			}
@@ -228,26 +242,33 @@ func (v *Verifier) inline(s *State, callee *ssa.Function, args []*Value, clo *Cl
 		}
 	}
 	merged := mergeStates(sts)
-	if len(merged) != 1 {
-		// cannot merge: approximate by forcing merge failure to abort
-		v.abort("inlined call to %s returns %d unmergeable states", funcRef(callee), len(merged))
+	if len(merged) != 1 && v.noFork > 0 {
+		v.abort("inlined call to %s returns %d unmergeable states in a context that cannot fork", funcRef(callee), len(merged))
+	}
+	takeRet := func(st *State) *Value {
+		var res *Value
+		switch rt.Len() {
+		case 0:
+		case 1:
+			res = st.ghost["$ret0"]
+		default:
+			res = &Value{T: rt}
+			for k := 0; k < rt.Len(); k++ {
+				res.L = append(res.L, st.ghost[fmt.Sprintf("$ret%d", k)].L...)
+			}
+		}
+		for k := 0; k < rt.Len(); k++ {
+			delete(st.ghost, fmt.Sprintf("$ret%d", k))
+		}
+		return res
+	}
+	// the first state continues in place; the others become forks that the enclosing block executor continues
+	for _, m := range merged[1:] {
+		r := takeRet(m)
+		v.forks = append(v.forks, fork{st: m, val: r})
 	}
 	*s = *merged[0]
-	var res *Value
-	switch rt.Len() {
-	case 0:
-	case 1:
-		res = s.ghost["$ret0"]
-	default:
-		res = &Value{T: rt}
-		for k := 0; k < rt.Len(); k++ {
-			res.L = append(res.L, s.ghost[fmt.Sprintf("$ret%d", k)].L...)
-		}
-	}
-	for k := 0; k < rt.Len(); k++ {
-		delete(s.ghost, fmt.Sprintf("$ret%d", k))
-	}
-	return res
+	return takeRet(s)
 }
 
 func (v *Verifier) havocResult(s *State, rt types.Type, hint string) *Value {
@@ -288,9 +309,10 @@ func (v *Verifier) havocCall(s *State, callee *ssa.Function, c *ssa.CallCommon, 
 	name := funcRef(callee)
 	v.trusted[name] = true
 	if isModulePkg(fnPkg(callee)) && callee.Blocks != nil {
+		s.bumpWM()
 		ms := v.modset(callee)
 		for _, k := range sortedKeys(ms) {
-			s.heap[k] = Fresh("Hc!"+k, ms[k])
+			s.freshHeap("Hc!", k, ms[k])
 		}
 	} else {
 		v.havocPointees(s, args)
@@ -1296,3 +1318,11 @@ func (v *Verifier) recursionMeasure(s *State, fc *FuncContract, callee *ssa.Func
 }
 
 func (fc *FuncContract) Decreases2Props() []string { return nil }
+
+
+// applyFieldCallback applies a `callback <field>` contract: like a call by contract with `self` bound to the object
+// the func value was loaded from.
+func (v *Verifier) applyFieldCallback(s *State, fc *FuncContract, sig *types.Signature, self *Value, args []*Value, pos token.Pos, rt types.Type, name string) *Value {
+	full := append([]*Value{self}, args...)
+	return v.applyContractNamed(s, fc, sig, full, pos, rt, name, true)
+}
